@@ -1207,6 +1207,21 @@ func TestVerifC08(t *testing.T) {
 		// round 2: /p2p address forms incl. circuit addresses; hand-sealed relay vouchers
 		c08P2PAddrs(t, out, r, ks[round%4], ks[(round+1)%4], ks[(round+3)%4])
 		c08Vouchers(t, out, r, ks[round%4], ks[(round+1)%4], ks[(round+2)%4], ks[(round+3)%4])
+		// round 3: ECDSA keys on P-224 / P-384 / P-521 through the key, signature, ID and envelope streams
+		for _, cname := range []string{"P-224", "P-384", "P-521"} {
+			ck := c08CurveKeys(t)[cname]
+			label := "ecdsa_" + cname
+			out.Cover("key." + label + ".cases")
+			c08KeyCase(t, out, ck)
+			c08KeyAliasCases(out, r, ck)
+			c08Matches(out, r, ck)
+			c08Sigs(t, out, r, ck, []*keyInfo{ks[2]}, 2, 1)
+			c08SigDigests(t, out, r, ck, 4)
+			c08PrivBlobs(t, out, r, ck, label, 3)
+			cc := &envCtx{t: t, out: out, keys: []*keyInfo{ck, ks[2]}, mem: mem, dsb: dsb}
+			c08Envelope(t, out, r, cc, modeTyped, &rawRec{dom: "c08-curve-" + cname, codec: []byte{0x55}, payload: rbytes(r, 12)}, 3, false)
+			c08PeerRecords(t, out, r, cc, modeMem, 9)
+		}
 		for i, k := range ks {
 			isRSA := k.kt == 0
 			every := 1
@@ -1232,6 +1247,9 @@ func TestVerifC08(t *testing.T) {
 			c08SigDigests(t, out, r, k, ndig)
 			c08Inlining(t, out, k)
 			c08SealThenMutate(t, out, r, k, ks[(i+1)%4])
+			// round 3: private-key blobs, destinations reused across two records
+			c08PrivBlobs(t, out, r, k, ktName[k.kt], every)
+			c08ReusedDestination(t, out, r, k, ks[(i+1)%4])
 			if round == 0 || thorough {
 				c08IDForms(out, r, k)
 				ed := func(m []byte, what string) { c08PubkeyEdit(out, m, what) }
